@@ -14,4 +14,13 @@ PROPS = {
         "quick": {"shards": 8, "timeout_s": 900, "floors": {"distinct_nontrivial": 20000, "clearly_apart": 1000, "too_far_true": 1000, "closed_form_compared": 1000, "rigid_motion_checked": 1000, "identical_checked": 1000}},
         "thorough": {"shards": 16, "timeout_s": 3000, "floors": {"distinct_nontrivial": 1000000}},
     },
+    "C14": {
+        "quick": {"shards": 8, "timeout_s": 900, "floors": {"distinct_nontrivial": 3000, "boxes_dropped_by_suppression": 10000, "boxes_filtered": 1000}},
+        "thorough": {"shards": 16, "timeout_s": 3000, "floors": {"distinct_nontrivial": 100000}},
+    },
+    "C15": {
+        "crash_signature": "C15/process-abort",
+        "quick": {"shards": 8, "timeout_s": 900, "floors": {"distinct_nontrivial": 1500, "exact_grid_references": 2000, "order_checks": 1000, "boxes_fully_covered": 50, "boxes_overlapping_nothing": 200}},
+        "thorough": {"shards": 16, "timeout_s": 3000, "floors": {"distinct_nontrivial": 50000}},
+    },
 }
